@@ -76,8 +76,11 @@ def name_programs(tier):
     return out
 
 
-VECS = [{"inline_functions": False}, {"inline_functions": True}, {"inline_functions": False, "use_push_pop_functions": True},
-        {"inline_functions": False, "compact": True}]
+# the comment options put source text (with function names and label-like words) on instruction and
+# label lines: label removal and unused-label removal both scan whole lines
+VECS = [{"inline_functions": False}, {"inline_functions": True}, {"inline_functions": False, "original_code_as_comment": True},
+        {"inline_functions": False, "use_push_pop_functions": True}, {"inline_functions": False, "compact": True},
+        {"inline_functions": True, "original_code_as_comment": True, "generated_comments": True}]
 
 
 def task(spec):
@@ -260,7 +263,7 @@ def run(tier: str) -> int:
     progs += name_programs(tier)
     items = []
     for name, src, expect in progs:
-        for vi, vec in enumerate(VECS if (tier == "thorough" or name.startswith(("names:", "fixed:"))) else VECS[:2]):
+        for vi, vec in enumerate(VECS if (tier == "thorough" or name.startswith(("names:", "fixed:"))) else VECS[:3]):
             items.append(dict(name=f"{name}@{vi}", sources=src, opts=vec, tier=tier, expect=expect))
     results = harness.pmap(task, items, placeholder=lambda it, st, d: dict(name=it["name"], status=st, detail=d, problems=[], labels=0, jumps=0))
     nontrivial = 0
